@@ -526,7 +526,7 @@ func (dsc *dataStoreCommand) getIds(keyNames ...string) (ids []uint64) {
 	for _, keyName := range keyNames {
 		sk, exists := dsc.getKeyObjectUnlocked(keyName)
 		if exists {
-			ids = append(ids, sk.id)
+			ids = append(ids, sk.watchStamp())
 		} else {
 			ids = append(ids, 0)
 		}
